@@ -32,7 +32,8 @@ type Obligation struct {
 	Trivial   bool   `json:"-"`
 }
 
-func (o Obligation) Key() string { return o.Rule + ":" + o.Construct }
+// Key is space-free so that it can be listed in known_findings.txt.
+func (o Obligation) Key() string { return strings.ReplaceAll(o.Rule+":"+o.Construct, " ", "_") }
 
 // Property is the registration record of one property's rule set.
 type Property struct {
